@@ -144,8 +144,8 @@ class from_dotbracket:
         "labels": {1: "only-fresh-entries-written"}}}
     ghost = [
         {"when": "after", "at": "entries = [", "label": "M0", "do": ["let M = fill(len(entries), 0 - 1)"]},
-        {"when": "after", "at": "entries[i].pair = j + 1", "loop": 0, "label": "M5", "do": ["let M = upd(M, i, q0)"]},
-        {"when": "after", "at": "entries[j].pair = i + 1", "loop": 0, "label": "M3", "do": ["let M = upd(M, j, q0)"]},
+        {"when": "after", "at": "entries[i].pair = ", "loop": 0, "label": "M5", "do": ["let M = upd(M, i, q0)"]},
+        {"when": "after", "at": "entries[j].pair = ", "loop": 0, "label": "M3", "do": ["let M = upd(M, j, q0)"]},
         {"when": "before", "at": "return BpSeq(entries)", "label": "restate",
          # what the rest of the function needs, restated; everything else is dropped (smaller solver context)
          "do": ["assert len(entries) == len(dot_bracket.sequence) and len(entries) >= 0 and len(M) == len(entries)",
@@ -578,7 +578,7 @@ class bpseq_without_isolated:
     ghost = [
         {"when": "after", "at": "stems, _, _, _ = self.elements", "label": "S", "do": ["let S = elements_S", "let GS = elements_GS", "let E = self.entries"]},
         {"when": "after", "at": "to_unpair = []", "label": "W0", "do": ["let W = fill(len(self.entries), 0 - 1)"]},
-        {"when": "before", "at": "if stem.strand5p.first == stem.strand5p.last", "loop": 0, "label": "stem-k",
+        {"when": "before", "at": "if stem.strand5p.first", "loop": 0, "label": "stem-k",
          "do": ["let T = S[k]", "let p5 = T[0].index_ - 1", "let p3 = T[0].pair - 1",
                 "assert stem_of(stem, T) and len(T) >= 1 and 0 <= p5 and p5 < p3 and p3 < len(E)",
                 "assert E[p5] is T[0] and qual(E[p5]) and lo_of(E, p5) == p5",
@@ -597,8 +597,10 @@ class bpseq_without_isolated:
                 "let U0 = to_unpair",
                 "assert (stem.strand5p.first == stem.strand5p.last) == (len(T) == 1) and stem.strand5p.first - 1 == p5 and implies(len(T) == 1, stem.strand3p.first - 1 == p3)",
                 ]},
-        {"when": "after", "at": "if stem.strand5p.first == stem.strand5p.last", "loop": 0, "label": "listed",
-         "do": ["let U1 = to_unpair",
+        {"when": "after", "at": "if stem.strand5p.first", "loop": 0, "label": "listed",
+         # ghost inverse of to_unpair: the two ends of a one-pair stem are listed at the next two places
+         "do": ["let W = ite(len(T) == 1, upd(upd(W, p5, len(U0)), p3, len(U0) + 1), W)",
+                "let U1 = to_unpair",
                 "forall q | let c = 0 <= q and q < len(U1)"
                 " | assert implies(c, (q < len(U0) and U1[q] == U0[q]) or (len(T) == 1 and (U1[q] == p5 or U1[q] == p3)))"
                 " | assert implies(c and q < len(U0), 0 <= U0[q] and U0[q] < len(E) and isolated(E, S, GS, U0[q]))"
@@ -607,10 +609,6 @@ class bpseq_without_isolated:
                 " | assert implies(c and stem_no(E, GS, x) == k, len(T) == 1 and (x == p5 or x == p3))"
                 " | assert implies(c and stem_no(E, GS, x) < k, x != p5 and x != p3)"
                 " | assert implies(c and stem_no(E, GS, x) < k + 1, 0 <= W[x] and W[x] < len(U1) and U1[W[x]] == x)"]},
-        {"when": "after", "at": "to_unpair.append(stem.strand5p.first - 1)", "loop": 0, "label": "W5",
-         "do": ["let W = upd(W, stem.strand5p.first - 1, len(to_unpair) - 1)"]},
-        {"when": "after", "at": "to_unpair.append(stem.strand3p.first - 1)", "loop": 0, "label": "W3",
-         "do": ["let W = upd(W, stem.strand3p.first - 1, len(to_unpair) - 1)"]},
         {"when": "after", "at": "entries = ", "label": "copies-are-fresh-objects",
          "do": ["assert all_fresh(entries)"]},
         {"when": "after", "at": "entries = ", "label": "restate",
